@@ -33,6 +33,13 @@ func TestMain(m *testing.M) {
 			"mutated with: bit/byte flips at drawn positions (and at EVERY position of one sample per key type x record kind, deterministic sweep), "+
 			"truncation, extension, insertion, deletion, protobuf field edits through protowire (edit inside a field keeping the framing valid, "+
 			"swap two fields' contents, change a tag, duplicate/drop/reorder a field, splice the same field of another sealed envelope, edit the nested key), "+
+			"PRIVATE keys additionally (TestPrivKeyEquality): a family of serialized private keys derived from one fresh key of every type - bit/byte edits at a drawn position of a drawn NAMED part "+
+			"(Ed25519 seed half / public half, Secp256k1 scalar, every SEC1 field of an ECDSA key, every PKCS#1 integer of an RSA key, DER framing), the same part taken from another key of the type, "+
+			"cuts at drawn lengths and part boundaries, re-encodings (Ed25519 legacy 96-byte form with and without edits, Secp256k1 scalar d and d+n, SEC1 without/with foreign public key, padded scalar, "+
+			"RSA with swapped primes / without CRT values / d+lcm(p-1,q-1) / wrong CRT value, protobuf re-encodings), the other key itself - and every PAIR of accepted keys (original included) is judged by the "+
+			"equality rule: Equals (both directions) and KeyEqual (both directions) agree; Equal => same type, same derived public key, same peer ID, a signature made by either verifies under the public key of "+
+			"the other whenever one of them is a working signer, and identical Raw bytes (RSA exempt from the last clause only: several valid PKCS#1 encodings of one key; counted as equal-other-encoding); "+
+			"identical Raw => Equal; not Equal and different public keys => no cross-verification. The same rule judges (original, candidate) in TestKeyMutation, TestKeyEveryPosition and FuzzKeys. "+
 			"colliding (domain, payload type, payload) triples constructed for six weaker-than-specified pre-image encodings, foreign key and foreign domain pairings. "+
 			"Oracle: round trips; independent peer ID definition; metamorphic acceptance rule (accepted => decoded (signer key, payload type, payload) and the requested "+
 			"domain are exactly a sealed tuple; for peerstores additionally record.PeerID == ID of the signing key). "+
